@@ -150,6 +150,11 @@ def handle (j : Json) : Except String Json := do
       | some d => Json.mkObj [("unique", .bool d.unique), ("name", jopt d.name), ("table", jstr d.table), ("using", jopt d.method),
           ("cols", .arr (d.cols.map jstr).toArray)]
       | none => .null)])
+  | "readcomment" =>
+    let t ← strF j "text"
+    pure (Json.mkObj [("ok", match C04.readCommentOn t with
+      | some d => Json.mkObj [("entity", jstr d.entity), ("path", .arr (d.path.map jstr).toArray), ("text", jstr d.text)]
+      | none => .null)])
   | "readfk" =>
     let t ← strF j "text"
     pure (Json.mkObj [("ok", match C04.readFk t with
